@@ -174,8 +174,25 @@ def execute(sel, columns, rows, coltypes=None, tables=None, params=None, text_of
     elif isinstance(sel.from_clause, ast.Table) and tables is not None and sel.from_clause.name in tables:
         columns, rows, coltypes = tables[sel.from_clause.name]
 
+    outer_tables = tables
+
+    def subquery(node):
+        if not isinstance(node.from_clause, (ast.Table, ast.Select)):
+            # a sub-query without FROM (or with a FROM expression) reads the default table
+            n2, r2, _ = execute(node, default_table[0], default_table[1], default_table[2], outer_tables, params, text_of)
+        else:
+            n2, r2, _ = execute(node, [], [], None, outer_tables, params, text_of)
+        if len(n2) != 1:
+            raise RefError('IN sub-query must have one column')
+        return [r[0] for r in r2]
+
+    default_table = (columns, rows, coltypes)
+    if tables is not None and 'postings' in tables:
+        default_table = tables['postings']
+
     def env(r):
         d = dict(zip(columns, r))
+        d['$subquery'] = subquery
         if params is not None:
             d['$params'] = params
         return d
